@@ -133,6 +133,39 @@ def short(o: Any, n: int = 400) -> Any:
 # ---------------------------------------------------------------------------
 
 
+class CaseBudget(BaseException):
+    """Raised by the wall-clock watchdog around ONE generated case.  Never a verdict: the case is
+    skipped and counted (a generated program can feed a loop its own growing output and run for
+    hours although every render step is correct)."""
+
+
+class case_budget:  # noqa: N801
+    """`with case_budget(90): ...` raises CaseBudget inside the block after that many seconds
+    (main thread of a worker process only)."""
+
+    def __init__(self, seconds: int):
+        self.seconds = seconds
+        self.old = None
+
+    @staticmethod
+    def _fire(*_a: object) -> None:
+        raise CaseBudget()
+
+    def __enter__(self) -> "case_budget":
+        import signal
+
+        self.old = signal.signal(signal.SIGALRM, self._fire)
+        signal.alarm(self.seconds)
+        return self
+
+    def __exit__(self, *exc: object) -> bool:
+        import signal
+
+        signal.alarm(0)
+        signal.signal(signal.SIGALRM, self.old)
+        return False
+
+
 class Stop(Exception):
     """Raised when a shard's deadline passes (results so far are kept)."""
 
